@@ -157,8 +157,7 @@ Proof. destruct b; try contradiction. intros _. apply feq_finite_eq. Qed.
 
 Lemma feq_zero_fix (a : f64) : feq a fzero = true -> fixf pv_float0 a -> a = fzero.
 Proof.
-  destruct a as [[|]|[|]| |[|] m e B]; try (cbn; discriminate); try reflexivity.
-  all: intros _ H; vm_compute in H; discriminate.
+  intros H F. destruct a as [[|]|[|]| |[|] m e B]; try (cbv in H; discriminate); try reflexivity.
 Qed.
 
 Lemma scale_is_finite (s : f64) : fixf pv_scale s -> match s with B754_finite _ _ _ _ => True | _ => False end.
